@@ -254,6 +254,16 @@ m("C06-r8", "C06", "libwallet/src/internal/scan.rs", "\tif delete_output {\n\t\t
 m("C03-r3acct", "C03", "libwallet/src/api_impl/foreign.rs", "\tlet tx = updater::retrieve_txs(&mut *w, None, Some(ret_slate.id), None, None, use_test_rng)?;", "\tlet tx = updater::retrieve_txs(\n\t\t&mut *w,\n\t\tNone,\n\t\tSome(ret_slate.id),\n\t\tNone,\n\t\tSome(&parent_key_id),\n\t\tuse_test_rng,\n\t)?;", "C03.R3")
 m("C16-r3h", "C16", "libwallet/src/internal/scan.rs", "\t\t\to.status = OutputStatus::Unspent;\n\t\t\tcancel_tx_log_entry(wallet_inst.clone(), keychain_mask, &o, false)?;", "\t\t\to.status = OutputStatus::Unspent;\n\t\t\tcancel_tx_log_entry(wallet_inst.clone(), keychain_mask, &o, true)?;", "C16.R3")
 
+m("C18-r6", "C18", "libwallet/src/internal/selection.rs", "\t\t\t\t|| coin.status == OutputStatus::Reverted\n", "", "C18.R6")
+m("C17-r4a", "C17", "libwallet/src/api_impl/owner.rs", "\t\tif tx.confirmed || tx.tx_type == TxLogEntryType::TxReverted {\n\t\t\tcontinue;\n\t\t}\n", "\t\tif tx.tx_type == TxLogEntryType::TxReverted {\n\t\t\tcontinue;\n\t\t}\n", "C17.R4")
+m("C18-r7", "C18", "libwallet/src/api_impl/owner.rs", "\t\tif tx.confirmed || tx.tx_type == TxLogEntryType::TxReverted {\n\t\t\tcontinue;\n\t\t}\n", "\t\tif tx.confirmed {\n\t\t\tcontinue;\n\t\t}\n", "C18.R7")
+m("C05-r1id", "C05", "libwallet/src/internal/tx.rs", "\t} else {\n\t\t// nothing names the transaction to cancel\n\t\treturn Err(Error::TransactionDoesntExist(tx_id_string));\n\t}\n", "\t}\n", "C05.R1")
+m("C03-r3c", "C03", "libwallet/src/api_impl/owner.rs", "\t\tif t.tx_type == TxLogEntryType::TxSentCancelled {\n\t\t\treturn Err(Error::TransactionWasCancelled(slate.id.to_string()));\n\t\t}\n", "", "C03.R3")
+m("C16-r9", "C16", "libwallet/src/internal/scan.rs", "\t\t\t\to.output.status == OutputStatus::Unconfirmed && !chain_commits.contains(&o.commit)\n", "\t\t\t\to.output.status == OutputStatus::Unconfirmed || chain_commits.is_empty()\n", "C16.R9")
+m("C16-r5l", "C16", "libwallet/src/internal/scan.rs", "\t\t\twhile labels.contains(&label) {", "\t\t\twhile labels.is_empty() {", "C16.R5")
+m("C14-r7", "C14", "api/src/owner.rs", "\t\t// Test keychain mask, to keep API consistent\n\t\tlet _ = w.keychain(keychain_mask)?;\n\t\towner::set_active_account(&mut **w, label)\n", "\t\towner::set_active_account(&mut **w, label)?;\n\t\tlet _ = w.keychain(keychain_mask)?;\n\t\tOk(())\n", "C14.R7")
+m("C13-r1b", "C13", "controller/src/controller.rs", "\t\tmatches!(val[\"method\"].as_str(), Some(\"init_secure_api\"))", "\t\tmatches!(val.get(0).unwrap_or(val)[\"method\"].as_str(), Some(\"init_secure_api\"))", "C13.R1")
+
 
 def for_property(prop):
     return [x for x in M if x["property"] == prop]
